@@ -20,7 +20,10 @@ Thorough == Tier = "thorough"
 
 (* special cells *)
 NearId   == { <<10000,1,0,0>>, <<10000,1,-2,2>>, <<-10000,1,1,0>>, <<-1000,0,0,1>>, <<20000,0,1,0>> }
-NearPi   == { <<1,0,0,100>>, <<-1,100,100,0>>, <<1,20,-20,10>>, <<-1,0,1000,0>> }
+NearPi   == { <<1,0,0,100>>, <<-1,100,100,0>>, <<1,20,-20,10>>, <<-1,0,1000,0>>,
+              \* w < 0 so close to 180 deg that the source MRP has 1 < |r|^2 <= 1.001 (a shadow switch with a
+              \* "tolerance" leaves these unswitched): |r|^2 ~ 1 + 2|w|/|q|
+              <<-1,0,3000,0>>, <<-1,2000,-2000,1000>>, <<-1,0,0,20000>>, <<-2,4000,0,3000>>, <<1,0,3000,0>> }
 BandY    == { <<2001,0,2000,0>>, <<2001,0,-2000,0>>, <<1001,0,1000,0>> }        \* pitch within 1e-3 of +-pi/2
 OutBandY == { <<501,0,500,0>>, <<501,0,-500,0>>, <<101,0,100,0>>, <<801,0,800,0>>, <<991,0,-990,0>>, <<721,0,-720,0>> }   \* (801: 1.25e-3, 991: 1.01e-3, 721: 1.39e-3 from the pole -- just outside the band)              \* 2e-3 .. 1e-2 outside the band
 Wrap(S)  == S \cup { QMul(QMul(<<2,0,0,1>>, q), <<3,1,0,0>>) : q \in S } \cup { QMul(<<1,0,0,-1>>, q) : q \in S }
